@@ -5,7 +5,7 @@
    Only statements; every proof is `exact <lemma>`. *)
 From Coq Require Import List ZArith QArith Qcanon Bool Arith.
 From Dimod Require Import Base.Util Model.Poly Model.Comb Gen.Gen_Gates Model.Gates
-  Proofs.GatesFacts Props.Comb Gen.Gen_Combinations Proofs.CombRule Gen.Gen_Graph Proofs.GraphConstants Model.Knap Proofs.KnapFacts Model.QKnap Gen.Gen_Knap Proofs.KnapGen Model.MultCircuit Proofs.MultFacts Proofs.MultArith Proofs.MultAttain Proofs.MultAll Model.Qap Proofs.QapFacts Model.Magic Proofs.MagicFacts Model.Sat Proofs.SatFacts Gen.Gen_Sat Proofs.SatGen Gen.Gen_Shapes Proofs.ShapeLocks Model.RandomDraws Gen.Gen_RandomDraws Proofs.RandomDrawsFacts.
+  Proofs.GatesFacts Props.Comb Gen.Gen_Combinations Proofs.CombRule Gen.Gen_Graph Proofs.GraphConstants Model.Knap Proofs.KnapFacts Model.QKnap Gen.Gen_Knap Proofs.KnapGen Model.MultCircuit Proofs.MultFacts Proofs.MultArith Proofs.MultAttain Proofs.MultAll Model.Qap Proofs.QapFacts Model.Magic Proofs.MagicFacts Model.Sat Proofs.SatFacts Gen.Gen_Sat Proofs.SatGen Gen.Gen_Shapes Proofs.ShapeLocks Model.RandomDraws Gen.Gen_RandomDraws Proofs.RandomDrawsFacts Proofs.QapExact Model.FrustLoop Proofs.FrustLoopFacts.
 Import ListNotations.
 
 (* energy 0 on exactly the rows of the truth table, >= 1 on every other row (strength 1) *)
@@ -449,6 +449,54 @@ Print Assumptions C17_power_r_draws.
 Theorem C17_pm_range_nonzero : forall r x, pm_range r x -> x <> 0%Z /\ (Z.abs x <= r)%Z.
 Proof. exact pm_range_nonzero. Qed.
 Print Assumptions C17_pm_range_nonzero.
+
+(* ---------- quadratic_assignment: exactly when the documented cost holds ---------- *)
+(* C17_qap_cost_symmetric has NO hypothesis on the flow matrix: directed / asymmetric flows are exact as long as the
+   distance matrix is symmetric.  With an asymmetric distance matrix already symmetric flows go wrong ... *)
+Theorem C17_qap_symmetric_flow_asymmetric_distance_refuted :
+  qap_cost_as_is 2 F_sym D_ex (fun i => i) <> qap_cost 2 F_sym D_ex (fun i => i).
+Proof. exact qap_symmetric_flow_asymmetric_distance_refuted. Qed.
+Print Assumptions C17_qap_symmetric_flow_asymmetric_distance_refuted.
+
+(* ... and exactly: for a distance matrix of size n >= 2 the generated objective is the documented cost for ALL flow
+   matrices and ALL placements iff the distance matrix is symmetric *)
+Theorem C17_qap_exact_iff_symmetric :
+  forall n D, (2 <= n)%nat ->
+    ((forall F pi, (forall i, (i < n)%nat -> (pi i < n)%nat) -> qap_cost_as_is n F D pi = qap_cost n F D pi)
+     <-> symmetric n D).
+Proof. exact qap_exact_iff_symmetric. Qed.
+Print Assumptions C17_qap_exact_iff_symmetric.
+
+(* ---------- frustrated_loop (Model/FrustLoop.v; the PRNG's choices - which cycles, which edge - are parameters) ---------- *)
+(* a closed walk multiplies to +1; with an odd number of anti-ferromagnetic couplers (plant_solution True or False)
+   at least one edge is violated: a loop of length L contributes >= -(L - 2) *)
+Theorem C17_fcl_closed_walk : forall s, Forall fl_pm1 s -> fl_zprod (sigmas s) = 1%Z.
+Proof. exact closed_walk. Qed.
+Print Assumptions C17_fcl_closed_walk.
+
+Theorem C17_fcl_frustrated_bound :
+  forall J sg, length J = length sg -> Forall fl_pm1 J -> Forall fl_pm1 sg ->
+    fl_zprod (map Z.opp J) = (-1)%Z -> fl_zprod sg = 1%Z -> (2 - Z.of_nat (length J) <= loop_energy J sg)%Z.
+Proof. exact frustrated_bound. Qed.
+Print Assumptions C17_fcl_frustrated_bound.
+
+(* planted loops: all-(+1) attains -(L - 2) on every loop, wherever the anti-ferromagnetic edge is put, so it is a
+   ground state of every sum of loops, for all spin assignments *)
+Theorem C17_fcl_planted_loop_ground :
+  forall (cyc : list nat) idx (a : nat -> Z),
+    (idx < length cyc)%nat -> (forall v, fl_pm1 (a v)) ->
+    let J := planted_J (length cyc) idx in
+    loop_energy J (sigmas (map (fun _ => 1%Z) cyc)) = (2 - Z.of_nat (length cyc))%Z /\
+    (loop_energy J (sigmas (map (fun _ => 1%Z) cyc)) <= loop_energy J (sigmas (map a cyc)))%Z.
+Proof. exact planted_loop_ground. Qed.
+Print Assumptions C17_fcl_planted_loop_ground.
+
+Theorem C17_fcl_planted_ground_state :
+  forall loops (a : nat -> Z),
+    (forall lp, In lp loops -> (snd lp < length (fst lp))%nat) -> (forall v, fl_pm1 (a v)) ->
+    (fl_energy loops (fun _ => 1%Z) <= fl_energy loops a)%Z.
+Proof. exact fl_planted_ground_state. Qed.
+Print Assumptions C17_fcl_planted_ground_state.
 
 Example C17_ex_fulladder : fulladder_energy [true; true; false; false; true] = 0%Z /\
                            fulladder_energy [true; true; false; true; true] = 1%Z.
